@@ -53,8 +53,8 @@ class FakeSocket:
         w = self.wire
         w.recv_calls += 1
         if not w.stream:
-            if getattr(w, "eof", False):
-                return b""
+            if getattr(w, "eof", False) or (getattr(w.server, "closed", False) and not w.delayed):
+                return b""       # the peer has closed the connection (after BYE / LOGOUT, or because the test says so)
             if w.delayed:       # the data was merely slow: it is there for whoever reads next
                 w.stream += w.delayed
                 w.delayed = b""
@@ -158,9 +158,11 @@ class Session:
 
         return self.call(run)
 
-    def op(self, name, *args, stream=None, sched=None):
+    def op(self, name, *args, stream=None, sched=None, eof=False):
         if stream is not None or sched is not None:
             self.wire.feed(stream or b"", sched)
+        if eof:
+            self.wire.eof = True      # the peer closes once the fed bytes are read: recv returns b""
         return self.call(lambda: getattr(self.client, name)(*args))
 
 
